@@ -104,9 +104,24 @@ def run(chk, ctx) -> None:
     for cname, fi in impls.items():
         for loop in _combination_loops(fi):
             early = [n for st in loop.body for n in ast.walk(st) if isinstance(n, (ast.Break, ast.Return))]
+            # a `continue` skips a combination: only the handler of "not a hand of this type" may do that
+            handler_nodes = {id(x) for st in loop.body for t in ast.walk(st) if isinstance(t, ast.Try) for h in t.handlers for x in ast.walk(h)}
+            early += [n for st in loop.body for n in ast.walk(st) if isinstance(n, ast.Continue) and id(n) not in handler_nodes]
+            # ... nor is the evaluation of a combination put under a condition of its own (a "seen before" memo, a fast path)
+            def guarded(stmts, under_if):
+                for st in stmts:
+                    if isinstance(st, ast.Try) and under_if:
+                        early.append(st)
+                    for fld in ('body', 'orelse', 'finalbody'):
+                        sub = getattr(st, fld, None)
+                        if isinstance(sub, list) and sub and isinstance(sub[0], ast.stmt):
+                            guarded(sub, under_if or isinstance(st, (ast.If, ast.While, ast.Match)))
+                    for h in getattr(st, 'handlers', []):
+                        guarded(h.body, under_if)
+            guarded(loop.body, False)
             chk.ob('C05.exhaustive', fi.qualname, not early, ctx.loc(fi, early[0]) if early else ctx.loc(fi, loop),
-                   'every legal combination is examined: no break / return inside the loop over the combinations '
-                   '(a later combination of the same category can still be stronger)')
+                   'every legal combination is examined: no break / return inside the loop over the combinations, and none is skipped '
+                   'except for not being a hand of the type (a later combination of the same category can still be stronger)')
     chk.floor('C05.exhaustive', 4)
     if len(set(map(T.key, polarity.values()))) > 1:
         chk.ob('C05.polarity', 'siblings', False, prog.cls('Hand').loc,
